@@ -26,12 +26,48 @@ import (
 	"strings"
 
 	"gcverif/internal/fsdrv"
+	"gcverif/internal/hx"
 )
 
 var sweepAlphabet = []string{"a", "in", ".", "..", ""}
 
 // a second, smaller alphabet with the sibling name `inx` (string-prefix confusion), swept up to 3 segments
 var siblingAlphabet = []string{"inx", "in", "..", "a"}
+
+var outsideAlphabet = []string{sentName + "_0", sentName + "_host", sentName + "_hdir", "..", "in"}
+
+// outsideOnly: does the (single) path argument of a query line, read lexically, name something that exists only
+// outside every guarded root - it climbs above the root, or its reduced form still has a segment with an
+// outside-only name?  (`in/zsent_host/..` is just `in`.)  The reduction is the harness's own, not goatcore's.
+func outsideOnly(line string) bool {
+	f := strings.Split(line, " ")
+	if len(f) != 3 || !strings.Contains(f[2], hexName) {
+		return false
+	}
+	raw, err := hx.Dec(f[2])
+	if err != nil {
+		return false
+	}
+	var segs []string
+	for _, s := range strings.Split(string(raw), "/") {
+		switch s {
+		case "", ".":
+		case "..":
+			if len(segs) == 0 {
+				return true // climbs: whatever it found, it found it outside
+			}
+			segs = segs[:len(segs)-1]
+		default:
+			segs = append(segs, s)
+		}
+	}
+	for _, s := range segs {
+		if strings.HasPrefix(s, sentName) {
+			return true
+		}
+	}
+	return false
+}
 
 // sweepStrings: every spelling, deduplicated and sorted
 func sweepStrings(maxsegs int) []string {
@@ -60,6 +96,11 @@ func sweepStrings(maxsegs int) []string {
 	} else {
 		rec(maxsegs, nil)
 	}
+	// a third alphabet that spells names existing ONLY outside every guarded root (next to it in the bottom
+	// filespace, and next to a disk root on the host): a positive answer about such a path - even a bare
+	// `true` of IsExist/IsFile/IsDir - can only come from outside
+	alphabet = outsideAlphabet
+	rec(3, nil)
 	out := make([]string, 0, len(set))
 	for s := range set {
 		out = append(out, s)
@@ -187,6 +228,10 @@ func (sw *sweeper) call(e *env, hist []string, line string) (res string, clean b
 		bad = res
 	case leaks(res):
 		bad = "leak-in-result"
+	case res == "t" && outsideOnly(line):
+		// IsExist / IsFile / IsDir answered true for a path that spells an outside-only name (the
+		// environment is rebuilt whenever a call changed something inside the root)
+		bad = "leak-in-result"
 	}
 	if bad != "" {
 		sw.fail(e, bad, hist, line, res)
@@ -274,6 +319,12 @@ func sweepMain(w *bufio.Writer, maxsegs, shard, nshards, heavysegs, extrasegs in
 			for _, p := range pos {
 				// (Copy*(x, x) through a write-back cache used not to return — KF-C03-1, repaired: such positions are
 				// swept like any other; `skipped_selfcopy` stays 0)
+				// paths spelling an outside-only name go through the positions that cannot create a node of
+				// that name inside the root (a created `zsent…` inside would be the harness's own doing)
+				if strings.Contains(str, sentName) && (p.name == "mkdir" || p.name == "write" || p.name == "writer" ||
+					p.view || strings.HasSuffix(p.name, ".dst")) {
+					continue
+				}
 				sw.cases++
 				line := p.line(st.child, st.nextID, hp(str))
 				res, clean := sw.call(e, nil, line)
